@@ -48,12 +48,23 @@ def build(verbose=False):
     bdir = os.path.join(common.OUT, f"strl-build-{key}")
     drv = os.path.join(bdir, "driver")
     if os.path.exists(drv):
+        try:
+            os.utime(bdir, None)  # mark as in use
+        except OSError:
+            pass
         return drv, {"cached": True, "key": key}
-    # drop stale builds of other trees (disk is limited)
+    # drop stale builds of other trees (disk is limited) -- but only those not used for hours: a check of another tree
+    # (VERIF_REPO=<worktree>) may be running from its own build right now
+    import time as _t
     if os.path.isdir(common.OUT):
         for d in os.listdir(common.OUT):
+            pth = os.path.join(common.OUT, d)
             if d.startswith("strl-build-") and d != f"strl-build-{key}":
-                shutil.rmtree(os.path.join(common.OUT, d), ignore_errors=True)
+                try:
+                    if _t.time() - os.path.getmtime(pth) > 3 * 3600:
+                        shutil.rmtree(pth, ignore_errors=True)
+                except OSError:
+                    pass
     tmp = bdir + f".tmp{os.getpid()}"
     shutil.rmtree(tmp, ignore_errors=True)
     os.makedirs(tmp)
